@@ -56,20 +56,40 @@ TRollback == Is("rollback") /\ Rollback(Ev.t)
 TCommitStart == Is("commitstart") /\ CommitStart(Ev.t)
 
 \* the in-latch logger event: id, block, the rewritten operations of the block per column and row,
-\* and the trigger calls made while the block was applied
+\* the trigger calls made while the block was applied, the runs of value-less rows inserted (restore)
+ApplyBinding(b) ==
+  LET bufs == txn'[Ev.t].bufs
+      frd  == txn'[Ev.t].fired
+  IN /\ \A n \in DOMAIN bufs \cup DOMAIN Ev.ops :
+           PerRow(OpsOfBlock(BufOps(bufs, n), b)) = PerRow(EvOps(Ev.ops, n))
+     /\ \A n \in DOMAIN frd \cup DOMAIN Ev.fired :
+           PerRow(EvOps(frd, n)) = PerRow(EvOps(Ev.fired, n))
+     /\ Pairs(Ev.runs) = {x \in txn'[Ev.t].runs : BlockOf(x[1]) = b}
 TApply ==
   /\ Is("apply")
-  /\ txn[Ev.t].c = Ev.c
   /\ Ev.chid = Ev.id          \* the commit a consumer receives carries the id the store drew (C15)
   /\ \E mode \in {"strict", "asbuilt"} :
-       /\ Apply(Ev.t, Ev.b, Ev.id, mode)
-       /\ LET bufs == txn'[Ev.t].bufs
-              frd  == txn'[Ev.t].fired
-          IN /\ \A n \in DOMAIN bufs \cup DOMAIN Ev.ops :
-                   PerRow(OpsOfBlock(BufOps(bufs, n), Ev.b)) = PerRow(EvOps(Ev.ops, n))
-             /\ \A n \in DOMAIN frd \cup DOMAIN Ev.fired :
-                   PerRow(EvOps(frd, n)) = PerRow(EvOps(Ev.fired, n))
-TAfter == Is("after") /\ Unlatch(Ev.t)
+       /\ IF txn[Ev.t].pc = "restoring"
+            THEN RestoreApply(Ev.t, Ev.b, Ev.id, mode)
+            ELSE txn[Ev.t].c = Ev.c /\ Apply(Ev.t, Ev.b, Ev.id, mode)
+       /\ txn'[Ev.t].c = Ev.c
+       /\ ApplyBinding(Ev.b)
+\* the latch of a block is released; a restore also latches blocks whose image is empty (nothing is applied or emitted)
+TAfter == Is("after") /\ (IF txn[Ev.t].pc = "restoring" THEN UNCHANGED vars ELSE Unlatch(Ev.t))
+
+\* snapshot protocol: one event per hook point reached (the step before it has completed)
+TSnap ==
+  /\ Is("snap")
+  /\ CASE Ev.at = "opened"  -> SnapOpen(Ev.t, Ev.c)
+       [] Ev.at = "block"   -> IF Ev.b = 0 THEN SnapHeader(Ev.t) /\ txn'[Ev.t].sn.nb > 0
+                               ELSE SnapBlock(Ev.t) /\ Len(txn'[Ev.t].sn.blocks) = Ev.b
+       [] Ev.at = "closing" -> IF txn[Ev.t].pc = "snap.open" THEN SnapHeader(Ev.t) /\ txn'[Ev.t].sn.nb = 0
+                               ELSE SnapBlock(Ev.t) /\ Len(txn'[Ev.t].sn.blocks) = txn[Ev.t].sn.nb
+       [] Ev.at = "copying" -> SnapClose(Ev.t)
+       [] Ev.at = "ret"     -> IF Ev.err THEN (SnapFail(Ev.t) \/ SnapBusy(Ev.t, Ev.c)) ELSE SnapCopy(Ev.t, Ev.file)
+TRestore ==
+  /\ Is("restore")
+  /\ IF Ev.at = "begin" THEN RestoreBegin(Ev.t, Ev.c, Ev.file, Ev.trunc) ELSE RestoreEnd(Ev.t, Ev.err)
 
 TReplay == /\ Is("replay") /\ Ev.i \in DOMAIN st[Ev.src].strm /\ "bufs" \in DOMAIN st[Ev.src].strm[Ev.i]
            /\ ReplayBegin(Ev.t, Ev.c, st[Ev.src].strm[Ev.i], Ev.i)
@@ -137,8 +157,9 @@ DumpDiag ==
 ApplyDiag ==
   LET t == Ev.t
       S == st[Ev.c]
-      strict == ApplyBlock(S, txn[t].bufs, Ev.b, Ev.id, {})
-      full == ApplyBlock(S, txn[t].bufs, Ev.b, Ev.id, FlagsOf(ApplyKnown))
+      T == IF txn[t].pc = "restoring" /\ RestoreCanLoad(t) THEN RestoreLoaded(t) ELSE txn[t]
+      strict == ApplyBlockR(S, T.bufs, Ev.b, Ev.id, {}, T.runs)
+      full == ApplyBlockR(S, T.bufs, Ev.b, Ev.id, FlagsOf(ApplyKnown), T.runs)
   IN [ pc |-> txn[t].pc, dirty |-> txn[t].dirty, lastId |-> S.lastId, usedHas |-> Ev.id \in used,
        strict |-> [n \in DOMAIN strict.bufs |-> PerRow(OpsOfBlock(strict.bufs[n], Ev.b))],
        asbuilt |-> [n \in DOMAIN full.bufs |-> PerRow(OpsOfBlock(full.bufs[n], Ev.b))],
@@ -149,7 +170,7 @@ Diag == IF Ev.e = "dump" THEN DumpDiag ELSE IF Ev.e = "apply" THEN ApplyDiag ELS
 TNext == \/ TReset \/ TCreateCol \/ TCreateIdx \/ TDropIdx \/ TCreateSort \/ TCreateTrig \/ TDropTrig \/ TTransport
          \/ TBulkIns \/ TBulkDel \/ TBulkReplay
          \/ TBegin \/ TSel \/ TReserve \/ TInsFail \/ TWrite \/ TDelete \/ TDelMiss \/ TKDelete \/ TKeyCheck \/ TKeyEnd \/ TRollback \/ TCommitStart
-         \/ TApply \/ TAfter \/ TReplay \/ TRead \/ TDump
+         \/ TApply \/ TAfter \/ TSnap \/ TRestore \/ TReplay \/ TRead \/ TDump
 TSpec == TInit /\ [][TNext]_tvars
 
 \* acceptance: high-water mark of l and union of deviations, kept in a TLC register (needs -workers 1)
